@@ -1,6 +1,9 @@
 package check
 
 import (
+	"fmt"
+	"golang.org/x/tools/go/ssa"
+
 	"sort"
 	"strings"
 	"sync"
@@ -30,7 +33,14 @@ func funcsWithProp(env *Env, prop string) []*contract.Func {
 // functions, and the law generators selected by flags.
 func genStandard(env *Env, prop string, opaque bool, extra func(ex *symex.Exec, fc *contract.Func, g *Gen) bool) *Gen {
 	g := newGen()
-	fcs := funcsWithProp(env, prop)
+	g.done = map[string]bool{}
+	g.waves(env, prop, opaque, extra, funcsWithProp(env, prop), false)
+	return g
+}
+
+// waves verifies fcs, then (dependency waves) every contract used by the obligations
+// generated so far that has not been verified in this check yet.
+func (g *Gen) waves(env *Env, prop string, opaque bool, extra func(ex *symex.Exec, fc *contract.Func, g *Gen) bool, fcs []*contract.Func, dep bool) {
 	type item struct {
 		exs []*symex.Exec
 		ngs []symex.NotGenerated
@@ -39,8 +49,11 @@ func genStandard(env *Env, prop string, opaque bool, extra func(ex *symex.Exec, 
 	// every contract those obligations used at a call site (or as an axiom) that is tagged
 	// with another property only: a property's check never rests on a contract it has not
 	// itself checked against the current body.
-	done := map[string]bool{}
-	dep := false
+	done := g.done
+	if len(fcs) == 0 {
+		fcs = g.pendingDeps(env, done)
+		dep = true
+	}
 	for len(fcs) > 0 {
 		items := make([]item, len(fcs))
 		var wg sync.WaitGroup
@@ -61,6 +74,13 @@ func genStandard(env *Env, prop string, opaque bool, extra func(ex *symex.Exec, 
 				defer wg.Done()
 				sem <- struct{}{}
 				defer func() { <-sem }()
+				defer func() {
+					// a construct the engine does not handle must not take the whole check down:
+					// the function is reported as "obligations could not be generated"
+					if r := recover(); r != nil {
+						items[i].ngs = append(items[i].ngs, symex.NotGenerated{Func: fc.Name, Why: fmt.Sprintf("engine failure while generating: %v", r)})
+					}
+				}()
 				cases := []*contract.Case{nil}
 				if len(fc.Cases) > 1 {
 					cases = nil
@@ -165,28 +185,85 @@ func genStandard(env *Env, prop string, opaque bool, extra func(ex *symex.Exec, 
 			}
 			g.NotGen = append(g.NotGen, it.ngs...)
 		}
-		var next []*contract.Func
-		for k := range g.Used {
-			if done[k] {
-				continue
-			}
-			done[k] = true
-			if fc := env.CS.Funcs[k]; fc != nil && !fc.Flags["trusted"] && !fc.Flags["inline"] {
-				next = append(next, fc)
-			}
-		}
-		sort.Slice(next, func(i, j int) bool { return next[i].Rel+next[i].Name < next[j].Rel+next[j].Name })
-		if len(next) > 0 {
-			var names []string
-			for _, fc := range next {
-				names = append(names, fc.Name)
-			}
-			g.Notes = append(g.Notes, "contracts of other properties used by these obligations and verified here as well: "+strings.Join(names, ", "))
-		}
-		fcs = next
+		fcs = g.pendingDeps(env, done)
 		dep = true
 	}
-	return g
+}
+
+// pendingDeps: contracts used so far (call sites, axioms) that this check has not verified.
+func (g *Gen) pendingDeps(env *Env, done map[string]bool) []*contract.Func {
+	var next []*contract.Func
+	for k := range g.Used {
+		if done[k] {
+			continue
+		}
+		done[k] = true
+		if fc := env.CS.Funcs[k]; fc != nil && !fc.Flags["trusted"] && !fc.Flags["inline"] {
+			next = append(next, fc)
+		}
+	}
+	sort.Slice(next, func(i, j int) bool { return next[i].Rel+next[i].Name < next[j].Rel+next[j].Name })
+	if len(next) > 0 {
+		var names []string
+		for _, fc := range next {
+			names = append(names, fc.Name)
+		}
+		g.Notes = append(g.Notes, "contracts of other properties used by these obligations and verified here as well: "+strings.Join(names, ", "))
+	}
+	return next
+}
+
+// identLaws: Rules.Merge deletes r[j] when r[i].Compare(r[j]) == 0 (comments excepted): that
+// only identical rules are deleted is the zero-implies-identical law of every Compare
+// method. It is property C11's law, but C10 ("removed as duplicates only when identical")
+// and C16 ("distinct accesses are never discarded as duplicates") rest on it, so those
+// checks discharge it as well (only that law; Profile/Hat blocks are exempt as in C11).
+func identLaws(env *Env, g *Gen) {
+	var wg sync.WaitGroup
+	var mu sync.Mutex
+	sem := make(chan struct{}, 8)
+	for _, fc := range funcsWithProp(env, "C11") {
+		if !fc.Flags["orderlaws"] || fc.Flags["noident"] || fc.Name == "(*Comment).Compare" {
+			continue
+		}
+		fn := env.Prog.Func(fc.Rel, fc.Name)
+		if fn == nil {
+			continue
+		}
+		wg.Add(1)
+		go func(fc *contract.Func, fn *ssa.Function) {
+			defer wg.Done()
+			sem <- struct{}{}
+			defer func() { <-sem }()
+			defer func() {
+				if r := recover(); r != nil {
+					mu.Lock()
+					g.NotGen = append(g.NotGen, symex.NotGenerated{Func: fc.Name, Why: fmt.Sprintf("engine failure while generating: %v", r)})
+					mu.Unlock()
+				}
+			}()
+			ex := symex.NewExec(env.Prog, env.CS, env.Tables)
+			ex.FuncTables = env.FuncTables
+			ex.RegexpSubexp = env.RegexpSubexp
+			ex.SetPrefix("")
+			ng := ex.OrderLaws(fn, fc, nil)
+			var keep []*symex.Obligation
+			for _, o := range ex.Obls {
+				if strings.Contains(o.Name, "/law/ident") || o.Note == "must-fail" {
+					keep = append(keep, o)
+				}
+			}
+			ex.Obls = keep
+			mu.Lock()
+			g.absorb(ex)
+			if ng != nil {
+				g.NotGen = append(g.NotGen, *ng)
+			}
+			mu.Unlock()
+		}(fc, fn)
+	}
+	wg.Wait()
+
 }
 
 // properties whose obligations compare strings by equality only
@@ -248,6 +325,8 @@ func init() {
 		Packages: []string{"pkg/aa"},
 		Generate: func(env *Env) *Gen {
 			g := genStandard(env, "C10", true, nil)
+			identLaws(env, g)
+			g.waves(env, "C10", true, nil, nil, true) // contracts the ident laws use (Qualifier.Compare, ...)
 			if env.Tier == "thorough" {
 				denots := map[string]symex.Denot{}
 				for _, tl := range env.CS.Tables {
@@ -277,6 +356,9 @@ func init() {
 		Packages: []string{"pkg/aa"},
 		Generate: func(env *Env) *Gen {
 			g := genStandard(env, "C16", true, nil)
+			// "distinct accesses are never discarded as duplicates"
+			identLaws(env, g)
+			g.waves(env, "C16", true, nil, nil, true)
 			// every record of the list goes through AddRule exactly once (SSA shape obligation)
 			if fn := env.Prog.Func("pkg/logs", "(AppArmorLogs).ParseToProfiles"); fn != nil {
 				g.addFunc(env, fn)
@@ -299,6 +381,13 @@ func init() {
 		Packages: []string{"pkg/aa"},
 		Generate: func(env *Env) *Gen {
 			g := genStandard(env, "C13", true, nil)
+			// "reported as an error": no failure of resolveValues is swallowed by Resolve
+			if fn := env.Prog.Func("pkg/aa", "(*AppArmorProfileFile).Resolve"); fn != nil {
+				g.Static = append(g.Static, frame.ErrorsPropagated(env.Prog, fn, ").resolveValues"))
+			}
+			if fn := env.Prog.Func("pkg/aa", "(*AppArmorProfileFile).resolveValues"); fn != nil {
+				g.Static = append(g.Static, frame.ErrorsPropagated(env.Prog, fn, ").resolveValues"))
+			}
 			g.Unverified = []string{
 				"that substitution yields all combinations of the referenced values and agrees with apparmor_parser (string rewriting through regexp and strings.ReplaceAll)",
 				"that the values appended with += end up, in order, in the definition (only that the += rule is the one removed is covered through the conservation obligations)",
